@@ -5,12 +5,12 @@ from ..evalprop import *
 
 PID = "C16"
 MANIFEST = {
-    "text": "Theorems about the closures obtained by loading the GENERATED text of prelude.lisp with the model reader and evaluator inside Coq: the prelude loads without error (kernel computation), and for ALL operand forms X, Y the control macros and / or / when / not, apply, throw and the catch / catch-all clauses of try expand to the documented forms, the list functions length, range, foldl, reverse, map, zip, last, init, foldr and enumerate are proved for EVERY list - any length, any elements, and for foldl and map every function whose applications evaluate - by induction over the list through the evaluator's tail-call rules, with the result AND the fact that the loop runs at the depth it was called at (fuel linear in the length); get-property-safe (through which every catch clause reads the kind of a signal) returns for EVERY key and EVERY value what the primitive . returns and nil whenever . signals, and and / or / when / not expand to conditionals in which each operand occurs exactly where and as often as the documentation implies (each operand evaluated at most once, the second only when needed) - proved by symbolic evaluation of the macro bodies through the derived evaluator rules. A change of prelude.lisp regenerates the text and the loaded closures, so either the computed closure no longer matches the lemma about its body or the theorem fails. The list functions (map foldl foldr reverse zip length enumerate range append concat last init apply), the variadic arithmetic and comparisons are tied to their documented results by generated calls (lists of length 0..60 of mixed elements, native / closure / variadic / fixed-arity / signalling function arguments, operands with output side effects) run in the model and on the binary and checked against independent specification functions.",
-    "note": "The 'for every list' statements are theorems for length, range, foldl, reverse, map, zip, last, init, foldr and enumerate; for append, concat, apply and the variadic arithmetic they are validated by the differential check and the specification monitors (lists up to 20000 elements), not proved. Trusted: Coq kernel; transcription of the evaluator; prelude text generated from the source.",
+    "text": "Theorems about the closures obtained by loading the GENERATED text of prelude.lisp with the model reader and evaluator inside Coq: the prelude loads without error (kernel computation), and for ALL operand forms X, Y the control macros and / or / when / not, apply, throw and the catch / catch-all clauses of try expand to the documented forms, the list functions length, range, foldl, reverse, map, zip, last, init, foldr and enumerate are proved for EVERY list, + and * for EVERY list of numbers whose running results stay in the 64-bit range (the sum / the product; 0 / 1 for no argument; foldl restated with a guarded step because the primitive can signal) - any length, any elements, and for foldl and map every function whose applications evaluate - by induction over the list through the evaluator's tail-call rules, with the result AND the fact that the loop runs at the depth it was called at (fuel linear in the length); get-property-safe (through which every catch clause reads the kind of a signal) returns for EVERY key and EVERY value what the primitive . returns and nil whenever . signals, and and / or / when / not expand to conditionals in which each operand occurs exactly where and as often as the documentation implies (each operand evaluated at most once, the second only when needed) - proved by symbolic evaluation of the macro bodies through the derived evaluator rules. A change of prelude.lisp regenerates the text and the loaded closures, so either the computed closure no longer matches the lemma about its body or the theorem fails. The list functions (map foldl foldr reverse zip length enumerate range append concat last init apply), the variadic arithmetic and comparisons are tied to their documented results by generated calls (lists of length 0..60 of mixed elements, native / closure / variadic / fixed-arity / signalling function arguments, operands with output side effects) run in the model and on the binary and checked against independent specification functions.",
+    "note": "The 'for every list' statements are theorems for length, range, foldl, reverse, map, zip, last, init, foldr, enumerate, + and *; for append, concat, apply, - and / and the comparisons they are validated by the differential check and the specification monitors (lists up to 20000 elements), not proved. Trusted: Coq kernel; transcription of the evaluator; prelude text generated from the source.",
     "technique": "Coq symbolic evaluation of the generated prelude text: macro bodies for all operands; list functions by induction over the list through loop-level evaluator rules (result and constant depth) + kernel computation on the generated prelude + differential check against specification functions incl. lists far beyond the recursion limit",
 }
 TARGETS = ["Properties/C16.v", "Eval/PreludeState.v"]
-IMPORTS = ["Eval.EvalRules", "Eval.PreludeState", "Eval.PreludeProofs", "Eval.CatchProofs", "Eval.MacroProofs2", "Eval.LengthProofs", "Eval.RangeProofs", "Eval.FoldProofs", "Eval.MapProofs", "Eval.ZipProofs", "Eval.LastProofs", "Eval.InitProofs", "Eval.FoldrProofs", "Eval.EnumerateProofs", "Properties.C16"]
+IMPORTS = ["Eval.EvalRules", "Eval.PreludeState", "Eval.PreludeProofs", "Eval.CatchProofs", "Eval.MacroProofs2", "Eval.LengthProofs", "Eval.RangeProofs", "Eval.FoldProofs", "Eval.MapProofs", "Eval.ZipProofs", "Eval.LastProofs", "Eval.InitProofs", "Eval.FoldrProofs", "Eval.EnumerateProofs", "Eval.SumProofs", "Properties.C16"]
 THEOREMS = [
     ("C16_prelude_loads", "prelude_ok = true /\\ repl_ok = true /\\ debugger_ok = true"),
     ("C16_and_expansion", "forall X Y, macro_expands_to (s \"and\") [X; Y] (vec_to_list [vsym \"if\"; X; Y; nil_value])"),
@@ -37,6 +37,9 @@ THEOREMS = [
     ("C16_throw_expansion", "forall body, macro_expands_within 4 (s \"throw\") body (vec_to_list [vsym \"signal\"; VCons (vsym \"list\") (vec_to_list body)])"),
     ("C16_enumerate", "forall xs st d, in_i64 (Z.of_nat (List.length xs)) = true -> has_prelude st -> (d + 6 <= MAXD)%N -> exists fuel st' r, eval_loop fuel st en_body (en_env (vec_to_list xs)) pm d = (st', ROk r) /\\ has_prelude st' /\\ strip r = strip (vec_to_list (map pair_of (combine xs (indices (List.length xs)))))"),
     ("C16_map_instance", "forall xs st d, has_prelude st -> (d + 5 <= MAXD)%N -> exists fuel st' r, eval_loop fuel st mp_body (mp_env list_native (vec_to_list xs)) pm d = (st', ROk r) /\\ has_prelude st' /\\ strip r = strip (vec_to_list (map (fun x => vec_to_list [x]) xs))"),
+    ("C16_plus", "forall vals zs st d, Forall2 (fun v z => getv v = VNum z) vals zs -> in_range_from Z.add 0 zs = true -> has_prelude st -> (d + 4 <= MAXD)%N -> exists fuel st' r, eval_loop fuel st pl_body (pl_env (vec_to_list vals)) pm d = (st', ROk r) /\\ has_prelude st' /\\ getv r = VNum (fold_left Z.add zs 0%Z)"),
+    ("C16_times", "forall vals zs st d, Forall2 (fun v z => getv v = VNum z) vals zs -> in_range_from Z.mul 1 zs = true -> has_prelude st -> (d + 4 <= MAXD)%N -> exists fuel st' r, eval_loop fuel st tm_body (tm_env (vec_to_list vals)) pm d = (st', ROk r) /\\ has_prelude st' /\\ getv r = VNum (fold_left Z.mul zs 1%Z)"),
+    ("C16_plus_call_env", "forall src vals i n, (let '(ps, _, e, _) := plus_parts in pair_params src ps true vals e i n) = inl (pl_env (vec_to_list vals))"),
 ]
 
 def lst(xs):
